@@ -38,6 +38,7 @@ type DB struct {
 	cWriteDelayN           int32 // The cumulative number of write delays
 	inWritePaused          int32 // The indicator whether write operation is paused by compaction
 	aliveSnaps, aliveIters int32
+	readOnly               int32 // set (atomically) once the DB is or has been switched to read-only
 
 	// Compaction statistic
 	memComp       uint32 // The cumulative number of memory compaction
